@@ -4,8 +4,8 @@
    table names. That the served TREE then evolves like os's is not a theorem (package os and the kernel are outside the
    repository): it is decided on every run by the differential oracle of family c05 against package os itself. *)
 From Coq Require Import List NArith Bool Strings.Byte.
-From Sftp Require Import Base.GoSem Wire.Prim Wire.Packets Path.Clean Err.Status Srv.ReadOnly
-                         Proofs.CleanP Proofs.StatusP.
+From Sftp Require Import Base.GoSem Wire.Prim Wire.Packets Path.Clean Err.Status Srv.ReadOnly Srv.OpenFlags
+                         Proofs.CleanP Proofs.StatusP Proofs.OpenFlagsP.
 Import ListNotations.
 Open Scope N_scope.
 
@@ -43,6 +43,14 @@ Theorem C05_permission_pinned_refuted :
   cat_of_cerr (normalise (status_code false WLink (BErrno eperm))) <> cat_of WLink (BErrno eperm).
 Proof. vm_compute. discriminate. Qed.
 Print Assumptions C05_permission_pinned_refuted.
+
+(* Client.OpenFile's flags survive the wire: for EVERY os flag word f, the os.OpenFile call the server makes carries f's
+   access mode and its O_CREATE / O_TRUNC / O_EXCL bits and nothing else (O_APPEND is transmitted but, as documented in
+   server.go, not applied: the client supplies offsets); the impossible access mode 3 is refused with EINVAL before any
+   os call. toPflags is tied exhaustively on the 2^11 words it can distinguish (family opf). *)
+Theorem C05_openfile_flags_survive : forall f, open_osflags (toPflags f) = served_osflags f.
+Proof. exact openfile_flags_survive. Qed.
+Print Assumptions C05_openfile_flags_survive.
 
 Example C05_nonvacuous :
   to_local_path [x2f; x77]%byte [x61; x2f; x2e; x2e; x2f; x62]%byte = [x2f; x77; x2f; x62]%byte /\
